@@ -398,6 +398,11 @@ def run(tier):
         for cname in (pclasses if not thorough else [pclasses[n_path % len(pclasses)]]):
             replay_path(j, cname, h)
         n_path += 1
+    if depth != 2:
+        try:
+            os.remove(rp.out_path)            # ~1.4 GB of exported paths
+        except OSError:
+            pass
 
     # 4. random long behaviours (depth 60)
     nsim = 2000 if thorough else 150
